@@ -5,6 +5,7 @@ package xmpp
 import (
 	"fmt"
 	"strings"
+	"time"
 
 	"verif/hx"
 	"verif/vnet"
@@ -305,7 +306,7 @@ func (s *srvConn) serve(cfg *negCfg, r *negRec) {
 			if r.phase != "pre-auth" || s.inTLS {
 				r.Order = append(r.Order, "starttls in phase "+r.phase)
 			}
-			a := cfg.pick("starttls", "proceed", "failure", "unexpected", "malformed", "close")
+			a := cfg.pick("starttls", "proceed", "failure", "unexpected", "malformed", "close", "proceed-cleartext-behind")
 			r.answer("starttls", a, a == "proceed")
 			switch a {
 			case "proceed":
@@ -322,6 +323,30 @@ func (s *srvConn) serve(cfg *negCfg, r *negRec) {
 				r.TLSDone = true
 				needOpen = true
 				continue
+			case "proceed-cleartext-behind":
+				// clear text behind <proceed/> in the same segment - a stream header and features, which whoever sits on
+				// the path can add, the segment not being protected yet. The server itself then does the handshake, reads
+				// the client's header on the secured stream and takes its time to answer: anything the client sends
+				// beyond that header, it sends without having seen the features of the secured stream.
+				s.send("<proceed xmlns='" + nsTLS + "'/>" + s.header("jabber:client") + "<stream:features><mechanisms xmlns='" + nsSASL + "'><mechanism>PLAIN</mechanism></mechanisms></stream:features>")
+				if err := s.startTLS(getFixtures().cert(cfg.cert)); err != nil {
+					r.Steps = append(r.Steps, "tls-handshake=failed")
+					s.close()
+					return
+				}
+				r.TLSDone = true
+				if u := s.read(); u.kind == "prolog" {
+					s.read()
+				}
+				_ = s.raw.SetReadDeadline(vrt.Now().Add(2 * time.Second))
+				if u := s.read(); u.kind == "element" {
+					r.Order = append(r.Order, "<"+u.name+"> sent on the secured stream before the server had answered the stream header there: clear text received before the handshake was taken for the answer")
+					if u.name == "auth" {
+						r.AuthSeen, r.AuthInTLS = true, true
+					}
+				}
+				s.close()
+				return
 			case "failure":
 				s.send("<failure xmlns='" + nsTLS + "'/>")
 			case "unexpected":
